@@ -384,3 +384,11 @@ def run(ctx):
     _run_before_fx(ctx)
     from . import movefx_rules
     movefx_rules.rule_hash_vs_make(ctx)
+    # the hash delta is computed from the packed move: its fields must be disjoint and wide enough for their values
+    # (shared with C02.R1), otherwise a large clock leaks into the previous-e.p. field the delta reads
+    from . import c02, movefields as MF_
+    fields, setters = MF_.derive(ctx, "C02.R1")
+    if len(fields) >= 16:
+        c02.r1_layout(ctx, fields)
+    else:
+        ctx.lost("C02.R1", "Move getters (derived %d fields)" % len(fields))
